@@ -112,6 +112,13 @@ theorem run_survivorsAux (σ0 : Spec) : ∀ (h : List BOp) (live : List SDB.Op) 
           · exact Nat.le_refl _
           · exact h
         omega
+    | keep n =>
+      simp only [run, survivorsAux]
+      have : (stackOf σ0 live marks).take n = stackOf σ0 live (marks.take n) := by
+        simp only [stackOf, ← List.map_take]
+      rw [this]
+      exact ih live (marks.take n) (List.Pairwise.sublist (List.take_sublist _ _) hs)
+        (fun m hm => hb m (List.mem_of_mem_take hm))
 
 /-- Snapshots as copies and "only the surviving operations" are the same specification. -/
 theorem run_survivors (σ0 : Spec) (h : List BOp) :
@@ -270,5 +277,10 @@ theorem survivorsAux_mem : ∀ (h : List BOp) (live : List SDB.Op) (marks : List
       · rcases ih _ _ o ho with h1 | h1
         · exact Or.inl h1
         · exact Or.inr (List.mem_cons_of_mem _ h1)
+    | keep n =>
+      simp only [survivorsAux] at ho
+      rcases ih _ _ o ho with h1 | h1
+      · exact Or.inl h1
+      · exact Or.inr (List.mem_cons_of_mem _ h1)
 
 end Aergo.Buffer
